@@ -1047,3 +1047,46 @@ M("C19-extract-any-instead-of-all", "C19", "R19.3", WP,
 B("benign-extract-guard-spelling", ["C19"], TM,
   """                if len(worker.state_record_list) <= time:""",
   """                if not time < len(worker.state_record_list):""")
+
+# ---------------------------------------------------------------------------------------- C20
+M("C20-store-before-status-test", "C20", "R20.1", SP,
+  """        project.read_simple_json(file_path)
+        if project.status != BaseProjectStatus.FINISHED_SUCCESS:""",
+  """        project.read_simple_json(file_path)
+        self.file_path = file_path
+        if project.status != BaseProjectStatus.FINISHED_SUCCESS:""")
+M("C20-invert-quotient", "C20", "R20.3", SP,
+  """        self.work_amount_progress_of_unit_step_time = project_unit_timedelta / self.unit_timedelta""",
+  """        self.work_amount_progress_of_unit_step_time = self.unit_timedelta / project_unit_timedelta""")
+M("C20-duration-before-removal", "C20", "R20.2", SP,
+  """        if remove_absence_time_list:
+            project.remove_absence_time_list()
+        self.remove_absence_time_list = remove_absence_time_list
+        self.read_json_file = True
+        self.default_work_amount = project.time""",
+  """        self.default_work_amount = project.time
+        if remove_absence_time_list:
+            project.remove_absence_time_list()
+        self.remove_absence_time_list = remove_absence_time_list
+        self.read_json_file = True""")
+M("C20-auto-default-false", "C20", "R20.4", SP,
+  """due_time=None, auto_task=True, fixing_allocating_worker_id_list=None""",
+  """due_time=None, auto_task=False, fixing_allocating_worker_id_list=None""")
+M("C20-refusal-continues", "C20", "R20.1", SP,
+  """            warnings.warn('The target pDESy json file is not simulated. Some error will be occurred.Please call this function again after simulating the target project from pDESy json file.')
+            return (-1, datetime.timedelta(days=1))""",
+  """            warnings.warn('The target pDESy json file is not simulated. Some error will be occurred.Please call this function again after simulating the target project from pDESy json file.')""")
+M("C20-duration-from-cost-list", "C20", "R20.2", SP,
+  """        self.default_work_amount = project.time""",
+  """        self.default_work_amount = len(project.cost_list) + len(project.absence_time_list)""")
+M("C20-status-test-dropped", "C20", "R20.1", SP,
+  """        if project.status != BaseProjectStatus.FINISHED_SUCCESS:""",
+  """        if project.status == BaseProjectStatus.NONE:""")
+M("C20-removal-unconditional", "C20", "R20.2", SP,
+  """        if remove_absence_time_list:
+            project.remove_absence_time_list()""",
+  """        project.remove_absence_time_list()""")
+M("C20-no-warning", "C20", "R20.1", SP,
+  """            warnings.warn('The target pDESy json file is not simulated. Some error will be occurred.Please call this function again after simulating the target project from pDESy json file.')
+            return""",
+  """            return""")
